@@ -239,3 +239,35 @@ def periodic_witness(viol):
             'periodic NautilusBound (centre {!r}) does not contain its own sample {}'.format(
                 c, out[~inb & ~bad][0].tolist()), dict(kind='witness', center=c)))
     return n_exec
+
+
+def periodic_pool_witness(viol):
+    """the shift applied on exit from sample() must be the inverse of the one applied on entry to
+    contains() also when the points come from pool workers: periodic NautilusBounds (mode wrapped around
+    the boundary) sampled serially and through FakePool(1..3); every sample must be contained and lie
+    in the cube. Returns the number of samples checked."""
+    from nautilus.pool import NautilusPool
+    from . import boundmc as B, scen
+    n = 0
+    for per in ([0], [0, 1]):
+        for size in (0, 1, 2, 3):
+            pool = NautilusPool(scen.FakePool(size)) if size else None
+            b, pts, log_l, log_l_min = B.nautilus_bound('wrapped', 2, 0, np.array(per), core.SEED,
+                                                        pool=pool)
+            try:
+                with core.time_limit(120):
+                    out = b.sample(400, pool=pool)
+            except core.Timeout:
+                viol.setdefault('witness:pool-sample-hangs', (
+                    'periodic={} pool={}: sample() does not return'.format(per, size),
+                    dict(kind='poolwitness')))
+                continue
+            n += len(out)
+            ok = np.asarray(b.contains(out)) & np.all((out >= 0) & (out < 1), axis=1)
+            if not np.all(ok):
+                viol.setdefault('witness:pool-sample-not-contained', (
+                    'periodic={} pool of {}: {} of {} samples are not contained in the bound that '
+                    'produced them (shift on exit of sample() is not the inverse of the shift on entry '
+                    'to contains())'.format(per, size or 'none', int(np.sum(~ok)), len(out)),
+                    dict(kind='poolwitness')))
+    return n
